@@ -373,7 +373,7 @@ void gen(uint64_t seed, int tier, sim::Plan &p) {
     p.cfg["alloc_realloc"] = r.chance(0.8);
     p.cfg["alloc_calloc"] = r.chance(0.8);
     p.cfg["alloc_yield"] = r.chance(0.3);
-    p.cfg["max_join_all_callers"] = 1; // joinable threads that call join-all besides main
+    p.cfg["max_join_all_callers"] = r.pick(std::vector<int64_t>{1, 1, 2, 3}); // joinable threads that call join-all besides main
     int nmanual = (int)r.range(0, 3), nmanaged = (int)r.range(0, tier ? 6 : 4);
     if (nmanual + nmanaged == 0) nmanaged = 1;
     bool faults = p.get("faults") != 0;
